@@ -127,11 +127,13 @@ def same(a, b):
 
 
 def _mask_image_unit_name(v):
-    """view / JSON with the unit_name of OpenDocumentImage objects removed (class of the known
-    ODT finding: iterate_units writes image.unit_name)"""
+    """view / JSON with the unit_name of OpenDocumentImage objects (and the unit_number of the
+    ImageMetadata derived from it) removed: class of the known ODT finding (iterate_units writes
+    image.unit_name)"""
     if isinstance(v, dict):
-        odi = v.get("__class__") == "OpenDocumentImage" or v.get("_type") == "OpenDocumentImage"
-        return {k: _mask_image_unit_name(x) for k, x in v.items() if not (odi and k == "unit_name")}
+        cls = v.get("__class__") or v.get("_type")
+        drop = {"OpenDocumentImage": "unit_name", "ImageMetadata": "unit_number"}.get(cls)
+        return {k: _mask_image_unit_name(x) for k, x in v.items() if k != drop}
     if isinstance(v, (list, tuple)):
         return [_mask_image_unit_name(x) for x in v]
     return v
@@ -142,55 +144,62 @@ def _mask_image_unit_name(v):
 # =======================================================================================
 
 class G:
-    """draws the parameters of one instance.  size 0: fixed maximal structure, only the symbolic
-    values vary; size >= 1: element counts and vocabulary entries are choices"""
+    """draws the parameters of one instance.  size 0: one of everything, only the symbolic values
+    that reach branches vary; size 1: element counts are choices; size 2: more elements, and the
+    attribute vocabularies / optional values are choices too"""
 
     def __init__(self, ctx, size):
         self.ctx = ctx
         self.sz = size
 
-    def count(self, name, limit):
-        if self.sz == 0 or limit <= 0:
-            return max(limit, 0)
-        return self.ctx.choice(name, limit + 1)
+    def count(self, name, *limits):
+        """limits per size (last one repeats); size 0: exactly that many, else a choice 0..limit"""
+        lim = limits[min(self.sz, len(limits) - 1, 1)]       # sizes >= 2 widen the vocabularies, not the counts
+        if self.sz == 0 or lim <= 0:
+            return max(lim, 0)
+        return self.ctx.pick(name, lim + 1)
 
-    def pick(self, name, options, tiny=None):
-        if self.sz == 0 and tiny is not None:
-            return options[tiny]
-        return options[self.ctx.choice(name, len(options))]
+    def pick(self, name, options, default=0, lvl=1):
+        if self.sz < lvl:
+            return options[default]
+        return options[self.ctx.pick(name, len(options))]
 
-    def int(self, name, lo, hi):
+    def int(self, name, lo, hi, lvl=0, default=None):
+        if self.sz < lvl:
+            return hi if default is None else default
         return self.ctx.fresh_int(name, lo, hi)
 
-    def opt_int(self, name, lo, hi):
-        """None or a symbolic int"""
-        if self.ctx.flag(name + "_is_none"):
+    def opt_int(self, name, lo, hi, lvl=0, none_lvl=2, default=None):
+        """None (a choice from size none_lvl on) or a symbolic int (from size lvl on)"""
+        if self.sz >= none_lvl and self.ctx.pick(name + "_is_none", 2):
             return None
-        return self.ctx.fresh_int(name, lo, hi)
+        return self.int(name, lo, hi, lvl, default)
 
     def bool(self, name):
         return self.ctx.fresh_bool(name)
 
     def chars(self, name, maxlen, lo, hi):
-        n = self.ctx.choice(name + "_len", maxlen + 1)
+        n = maxlen if self.sz == 0 else self.ctx.pick(name + "_len", maxlen + 1)
         return self.ctx.fresh_chars(name, n, lo, hi)
 
 
 PNG = b"\x89PNG\r\n\x1a\n" + b"\x00" * 8
-TABLE = [["h1", "h2"], ["a", "b"]]
 
 
-def _tables(g, name, limit):
-    n = g.count(name, limit)
+def _tables(g, name, *limits):
+    n = g.count(name, *limits)
     return [[["h1", "h2"], ["a%d" % i, "b"]] if i % 2 == 0 else [] for i in range(n)]
+
+
+def _rows(t):
+    return [list(r) for r in t]
 
 
 def spec_email(g):
     dt = _dt()
-    plain = g.chars("body_plain", 1 if g.sz == 0 else 2, 32, 33)      # ' ' or '!'
+    plain = g.chars("body_plain", (1, 2, 2)[min(g.sz, 2)], 32, 33)      # ' ' or '!'
     html = g.chars("body_html", 1, 32, 33)
-    n_att = g.count("attachments", 0 if g.sz == 0 else 1)
-    supported = [g.ctx.flag("attachment%d_supported" % i) for i in range(n_att)]
+    supported = [bool(g.ctx.pick("attachment%d_supported" % i, 2)) for i in range(g.count("attachments", 0, 1, 2))]
 
     def make():
         return dt.EmailContent(
@@ -205,7 +214,7 @@ def spec_email(g):
 def spec_plain(g):
     dt = _dt()
     content = g.chars("content", 2, 32, 33)
-    fn = g.pick("filename", [None, "a.txt"], 1)
+    fn = g.pick("filename", ["a.txt", None], lvl=2)
 
     def make():
         return dt.PlainTextContent(content=content, metadata=dt.FileMetadataInterface(filename=fn))
@@ -215,35 +224,29 @@ def spec_plain(g):
 def spec_html(g):
     dt = _dt()
     content = g.chars("content", 2, 32, 33)
-    tabs = _tables(g, "tables", 2)
+    tabs = _tables(g, "tables", 1, 2)
 
     def make():
-        return dt.HtmlContent(content=content, tables=[[list(r) for r in t] for t in tabs],
+        return dt.HtmlContent(content=content, tables=[_rows(t) for t in tabs],
                               headings=[{"level": "h1", "text": "H"}], links=[{"text": "l", "href": "u"}],
                               metadata=dt.HtmlMetadata(title="T"))
     return make
-
-
-def _doc_images(g, limit):
-    out = []
-    for i in range(g.count("images", limit)):
-        out.append(dict(image_number=g.int("img%d_number" % i, 0, 3), caption=g.pick("img%d_caption" % i, ["", "cap1"], i % 2),
-                        width=g.opt_int("img%d_width" % i, -1, 2), height=g.int("img%d_height" % i, -1, 2),
-                        unit_number=g.opt_int("img%d_unit" % i, 0, 3)))
-    return out
 
 
 def spec_doc(g):
     dt = _dt()
     texts = ["Chapter 1\nbody cap1\nh1 h2 a0 b\nSubsection a\nmore\nChapter 2\nlast", "", "plain line cap1",
              "Intro\nx\nChapter 2\ny"]
-    text = g.pick("main_text", texts, 0)
-    tabs = _tables(g, "tables", 1 if g.sz < 2 else 2)
-    title = g.pick("title", ["", "T"], 1)
-    imgs = _doc_images(g, 1 if g.sz < 2 else 2)
+    text = g.pick("main_text", texts)
+    tabs = _tables(g, "tables", 1, 1, 2)
+    title = g.pick("title", ["T", ""], lvl=2)
+    imgs = [dict(image_number=g.int("img%d_number" % i, 0, 3), caption=g.pick("img%d_caption" % i, ["cap1", ""]),
+                 width=g.opt_int("img%d_width" % i, -1, 2), height=g.int("img%d_height" % i, -1, 2, lvl=2),
+                 unit_number=g.opt_int("img%d_unit" % i, 0, 3, lvl=2, none_lvl=0 if g.sz < 2 else 2))
+            for i in range(g.count("images", 1, 1, 2))]
 
     def make():
-        return dt.DocContent(main_text=text, footnotes="f", tables=[[list(r) for r in t] for t in tabs],
+        return dt.DocContent(main_text=text, footnotes="f", tables=[_rows(t) for t in tabs],
                              images=[dt.DocImage(content_type=" image/png ", data=PNG, size_bytes=len(PNG), **i) for i in imgs],
                              metadata=dt.DocMetadata(title=title, num_pages=1))
     return make
@@ -251,28 +254,27 @@ def spec_doc(g):
 
 def spec_docx(g):
     dt = _dt()
-    styles = [None, "Heading 1", "Heading 2", "Normal"]
-    n = g.count("paragraphs", 2 if g.sz < 2 else 3)
-    paras = []
-    for i in range(n):
-        paras.append((g.pick("para%d_style" % i, styles, (1, 0, 2)[i % 3]), g.pick("para%d_text" % i, ["t%d" % i, ""], i % 2),
-                      g.bool("para%d_page_break" % i)))
+    styles = ["Heading 1", None, "Heading 2", "Normal"]
+    n = 2 if g.sz < 2 else g.count("paragraphs", 2, 2, 3)
+    paras = [(g.pick("para%d_style" % i, styles[:3] if g.sz < 2 else styles, default=i % 2),
+              g.pick("para%d_text" % i, ["t%d" % i, ""], lvl=3), g.bool("para%d_page_break" % i)) for i in range(n)]
     imgs = []
-    for i in range(g.count("images", 1 if g.sz < 2 else 2)):
-        anchored = True if g.sz == 0 else g.ctx.flag("img%d_anchored" % i)
-        imgs.append(dict(anchor_paragraph_indices=[g.int("img%d_anchor" % i, 0, max(n, 1))] if anchored else [],
-                         width=g.opt_int("img%d_width" % i, -1, 2), has_data=g.pick("img%d_has_data" % i, [True, False], 0)))
-    tabs = _tables(g, "tables", 1 if g.sz < 2 else 2)
-    anchors_ok = g.pick("table_anchors_given", [True, False], 0)
-    tab_anchors = [g.int("table%d_anchor" % i, 0, max(n, 1)) for i in range(len(tabs))] if anchors_ok else [0] * (len(tabs) + 1)
-    title = g.pick("title", ["", "T"], 1)
+    for i in range(g.count("images", 1, 1, 2)):
+        anchored = g.pick("img%d_anchored" % i, [True, False], lvl=2)
+        imgs.append(dict(anchor_paragraph_indices=[g.int("img%d_anchor" % i, 0, 1 if g.sz == 0 else n)] if anchored else [],
+                         width=g.opt_int("img%d_width" % i, -1, 2, lvl=1), has_data=g.pick("img%d_has_data" % i, [True, False], lvl=3)))
+    tabs = _tables(g, "tables", 1, 1, 2)
+    anchors_ok = g.pick("table_anchors_given", [True, False], lvl=2)
+    tab_anchors = [g.int("table%d_anchor" % i, 0, 1 if g.sz == 0 else n, lvl=0 if g.sz != 1 else 2, default=1)
+                   for i in range(len(tabs))] if anchors_ok else [0] * (len(tabs) + 1)
+    title = g.pick("title", ["T", ""], lvl=3)
 
     def make():
         return dt.DocxContent(
             metadata=dt.DocxMetadata(title=title, revision=3),
             paragraphs=[dt.DocxParagraph(text=t, style=s, has_page_break=b, runs=[dt.DocxRun(text=t, bold=True)])
                         for s, t, b in paras],
-            tables=[[list(r) for r in t] for t in tabs], table_anchor_paragraph_indices=list(tab_anchors),
+            tables=[_rows(t) for t in tabs], table_anchor_paragraph_indices=list(tab_anchors),
             headers=[dt.DocxHeaderFooter("default", "hdr")],
             images=[dt.DocxImage(rel_id="rId%d" % k, filename="i.png", content_type="image/png ",
                                  data=io.BytesIO(PNG) if i["has_data"] else None, width=i["width"], height=1,
@@ -285,16 +287,17 @@ def spec_docx(g):
 def spec_pdf(g):
     dt = _dt()
     pages = []
-    for p in range(g.count("pages", 2)):
+    for p in range(g.count("pages", 1, 2, 2)):
         imgs = [dict(index=g.int("p%d_img%d_index" % (p, i), 0, 3), width=g.int("p%d_img%d_width" % (p, i), -1, 2),
-                     height=g.int("p%d_img%d_height" % (p, i), -1, 2), unit_name=g.opt_int("p%d_img%d_unit" % (p, i), 0, 3))
-                for i in range(g.count("p%d_images" % p, 1 if g.sz < 2 else 2))]
-        pages.append((g.pick("p%d_text" % p, [" page text ", ""], 0), imgs, _tables(g, "p%d_tables" % p, 1 if g.sz < 2 else 2)))
+                     height=g.int("p%d_img%d_height" % (p, i), -1, 2, lvl=2),
+                     unit_name=g.opt_int("p%d_img%d_unit" % (p, i), 0, 3))
+                for i in range(g.count("p%d_images" % p, 1, 1, 2))]
+        pages.append((g.pick("p%d_text" % p, [" page text ", ""], lvl=2), imgs, _tables(g, "p%d_tables" % p, 1, 1, 2)))
 
     def make():
         return dt.PdfContent(pages=[dt.PdfPage(text=t, images=[dt.PdfImage(name="Im", caption=" c ", data=PNG,
                                                                            content_type=" image/png", **i) for i in imgs],
-                                               tables=[[list(r) for r in tb] for tb in tabs]) for t, imgs, tabs in pages],
+                                               tables=[_rows(tb) for tb in tabs]) for t, imgs, tabs in pages],
                              metadata=dt.PdfMetadata(total_pages=len(pages)))
     return make
 
@@ -302,10 +305,10 @@ def spec_pdf(g):
 def spec_ppt(g):
     dt = _dt()
     slides = []
-    for s in range(g.count("slides", 2)):
-        imgs = [dict(slide_number=g.int("s%d_img%d_slide" % (s, i), -1, 2), width=g.opt_int("s%d_img%d_width" % (s, i), -1, 2))
-                for i in range(g.count("s%d_images" % s, 1))]
-        slides.append((g.int("s%d_number" % s, 0, 3), g.pick("s%d_title" % s, ["Title", None, ""], 0), imgs))
+    for s in range(g.count("slides", 1, 2, 2)):
+        imgs = [dict(slide_number=g.int("s%d_img%d_slide" % (s, i), -1, 2), width=g.opt_int("s%d_img%d_width" % (s, i), -1, 2, lvl=2))
+                for i in range(g.count("s%d_images" % s, 1, 1, 2))]
+        slides.append((g.int("s%d_number" % s, 0, 3), g.pick("s%d_title" % s, ["Title", None, ""][:2 if g.sz < 2 else 3]), imgs))
 
     def make():
         return dt.PptContent(metadata=dt.PptMetadata(title="T", num_slides=len(slides)),
@@ -322,16 +325,19 @@ def spec_ppt(g):
 def spec_pptx(g):
     dt = _dt()
     slides = []
-    for s in range(g.count("slides", 2)):
-        forms = [g.bool("s%d_formula%d_display" % (s, i)) for i in range(g.count("s%d_formulas" % s, 1 if g.sz < 2 else 2))]
-        imgs = [dict(width=g.opt_int("s%d_img%d_width" % (s, i), -1, 2), description=g.pick("s%d_img%d_desc" % (s, i), ["alt", ""], 0))
-                for i in range(g.count("s%d_images" % s, 1))]
-        slides.append((g.pick("s%d_base_text" % s, ["base ", ""], 0), forms, imgs, _tables(g, "s%d_tables" % s, 1)))
+    for s in range(g.count("slides", 1, 2, 2)):
+        forms = [g.bool("s%d_formula%d_display" % (s, i)) for i in range(g.count("s%d_formulas" % s, 1, 1, 2))]
+        imgs = [dict(width=g.opt_int("s%d_img%d_width" % (s, i), -1, 2, lvl=2),
+                     description=g.pick("s%d_img%d_desc" % (s, i), ["alt", ""], lvl=2))
+                for i in range(g.count("s%d_images" % s, 1, 1, 1))]
+        slides.append((g.pick("s%d_base_text" % s, ["base ", ""], lvl=2), forms, imgs, _tables(g, "s%d_tables" % s, 1, 0, 1)))
+        if g.sz == 1:
+            slides[-1] = slides[-1][:3] + ([[["h1", "h2"], ["a", "b"]]],)
 
     def make():
         return dt.PptxContent(
             metadata=dt.PptxMetadata(title="T", revision=2),
-            slides=[dt.PptxSlide(slide_number=k + 1, title="t", content_placeholders=["c"], tables=[[list(r) for r in tb] for tb in tabs],
+            slides=[dt.PptxSlide(slide_number=k + 1, title="t", content_placeholders=["c"], tables=[_rows(tb) for tb in tabs],
                                  images=[dt.PptxImage(image_index=j + 1, filename="i.png", content_type="image/png", blob=PNG,
                                                       height=1, caption="cap", slide_number=k + 1, **i) for j, i in enumerate(imgs)],
                                  formulas=[dt.PptxFormula("x^2", d) for d in forms], comments=[dt.PptxComment("a", "c", "d")],
@@ -342,11 +348,11 @@ def spec_pptx(g):
 def spec_xls(g):
     dt = _dt()
     sheets = []
-    for s in range(g.count("sheets", 2)):
-        rows = g.pick("sheet%d_rows" % s, [[{"A": 1, "B": None}, {"A": "x", "B": 2.5}], [], [{"A": None}]], 0)
-        sheets.append((rows, g.pick("sheet%d_text" % s, [" A B ", ""], 0)))
-    imgs = [dict(width=g.opt_int("img%d_width" % i, -1, 2), height=g.opt_int("img%d_height" % i, -1, 2))
-            for i in range(g.count("images", 1 if g.sz < 2 else 2))]
+    for s in range(g.count("sheets", 1, 2, 2)):
+        rows = g.pick("sheet%d_rows" % s, [[{"A": 1, "B": None}, {"A": "x", "B": 2.5}], [], [{"A": None}]])
+        sheets.append((rows, g.pick("sheet%d_text" % s, [" A B ", ""], lvl=2)))
+    imgs = [dict(width=g.opt_int("img%d_width" % i, -1, 2), height=g.opt_int("img%d_height" % i, -1, 2, lvl=2))
+            for i in range(g.count("images", 1, 1, 2))]
 
     def make():
         return dt.XlsContent(metadata=dt.XlsMetadata(title="T"),
@@ -360,16 +366,16 @@ def spec_xls(g):
 def spec_xlsx(g):
     dt = _dt()
     sheets = []
-    for s in range(g.count("sheets", 2)):
-        imgs = [dict(width=g.int("s%d_img%d_width" % (s, i), -1, 2), height=g.int("s%d_img%d_height" % (s, i), -1, 2),
-                     has_data=g.pick("s%d_img%d_has_data" % (s, i), [True, False], 0))
-                for i in range(g.count("s%d_images" % s, 1 if g.sz < 2 else 2))]
-        sheets.append((g.pick("s%d_data" % s, [[["h", 1], [None, 2.5]], []], 0), imgs))
+    for s in range(g.count("sheets", 1, 2, 2)):
+        imgs = [dict(width=g.int("s%d_img%d_width" % (s, i), -1, 2), height=g.int("s%d_img%d_height" % (s, i), -1, 2, lvl=2),
+                     has_data=g.pick("s%d_img%d_has_data" % (s, i), [True, False], lvl=2))
+                for i in range(g.count("s%d_images" % s, 1, 1, 2))]
+        sheets.append((g.pick("s%d_data" % s, [[["h", 1], [None, 2.5]], []]), imgs))
 
     def make():
         return dt.XlsxContent(
             metadata=dt.XlsxMetadata(title="T"),
-            sheets=[dt.XlsxSheet(name="S%d" % k, data=[list(r) for r in data], text=" txt ",
+            sheets=[dt.XlsxSheet(name="S%d" % k, data=_rows(data), text=" txt ",
                                  images=[dt.XlsxImage(image_index=j + 1, sheet_index=k, filename="i.png", content_type="image/png",
                                                       data=io.BytesIO(PNG) if i["has_data"] else None, size_bytes=len(PNG),
                                                       width=i["width"], height=i["height"], caption="c", description="d")
@@ -377,17 +383,17 @@ def spec_xlsx(g):
     return make
 
 
-_ODF_LENGTHS = ["2cm", None, "", "1.5in", "wide"]
+_ODF_LENGTHS = ["2cm", None, "wide", "", "1.5in"]
 
 
-def _od_images(g, prefix, limit, unit_lo=0, unit_hi=3, captions=("", "cap1")):
+def _od_images(g, prefix, *limits, captions=("cap1", ""), caption_lvl=2, width_lvl=2):
     out = []
-    for i in range(g.count(prefix + "images", limit)):
-        out.append(dict(width=g.pick("%simg%d_width" % (prefix, i), _ODF_LENGTHS, 0),
-                        caption=g.pick("%simg%d_caption" % (prefix, i), list(captions), i % len(captions)),
-                        description=g.pick("%simg%d_description" % (prefix, i), ["", "Intro"], 0),
-                        unit_name=g.opt_int("%simg%d_unit_name" % (prefix, i), unit_lo, unit_hi),
-                        has_data=g.pick("%simg%d_has_data" % (prefix, i), [True, False], 0)))
+    for i in range(g.count(prefix + "images", *limits)):
+        out.append(dict(width=g.pick("%simg%d_width" % (prefix, i), _ODF_LENGTHS[:3] if g.sz < 3 else _ODF_LENGTHS, lvl=width_lvl),
+                        caption=g.pick("%simg%d_caption" % (prefix, i), list(captions), lvl=caption_lvl),
+                        description=g.pick("%simg%d_description" % (prefix, i), ["", "Intro"], lvl=3),
+                        unit_name=g.opt_int("%simg%d_unit_name" % (prefix, i), 0, 3, none_lvl=1),
+                        has_data=g.pick("%simg%d_has_data" % (prefix, i), [True, False], lvl=3)))
     return out
 
 
@@ -400,7 +406,7 @@ def _od_image(dt, k, i):
 
 def spec_odg(g):
     dt = _dt()
-    imgs = _od_images(g, "", 2)
+    imgs = _od_images(g, "", 1, 2, 2, width_lvl=1)
 
     def make():
         return dt.OdgContent(metadata=dt.OpenDocumentMetadata(title="T", editing_cycles=2), full_text=" drawing text ",
@@ -410,7 +416,7 @@ def spec_odg(g):
 
 def spec_odf(g):
     dt = _dt()
-    text = g.pick("full_text", [" a+b ", ""], 0)
+    text = g.pick("full_text", [" a+b ", ""])
 
     def make():
         return dt.OdfContent(metadata=dt.OpenDocumentMetadata(title="T"), full_text=text)
@@ -420,14 +426,16 @@ def spec_odf(g):
 def spec_odp(g):
     dt = _dt()
     slides = []
-    for s in range(g.count("slides", 2)):
-        slides.append((g.int("s%d_number" % s, 0, 3), g.pick("s%d_title" % s, ["Title", ""], 0),
-                       _od_images(g, "s%d_" % s, 1), _tables(g, "s%d_tables" % s, 1)))
+    for s in range(g.count("slides", 1, 2, 2)):
+        slides.append((g.int("s%d_number" % s, 0, 3), g.pick("s%d_title" % s, ["Title", ""]),
+                       _od_images(g, "s%d_" % s, 1, 1, 1), _tables(g, "s%d_tables" % s, 1, 0, 1)))
+        if g.sz == 1:
+            slides[-1] = slides[-1][:3] + ([[["h1", "h2"], ["a", "b"]]],)
 
     def make():
         return dt.OdpContent(metadata=dt.OpenDocumentMetadata(title="T"),
                              slides=[dt.OdpSlide(slide_number=n, name="page", title=t, body_text=["b"], other_text=[" o "],
-                                                 tables=[[list(r) for r in tb] for tb in tabs],
+                                                 tables=[_rows(tb) for tb in tabs],
                                                  annotations=[dt.OpenDocumentAnnotation("c", "d", "t")],
                                                  images=[_od_image(dt, k, i) for k, i in enumerate(imgs)], notes=["n"])
                                      for n, t, imgs, tabs in slides])
@@ -437,13 +445,13 @@ def spec_odp(g):
 def spec_ods(g):
     dt = _dt()
     sheets = []
-    for s in range(g.count("sheets", 2)):
-        sheets.append((g.pick("s%d_data" % s, [[["h", 1], [None, 2.5]], []], 0), g.pick("s%d_name" % s, ["Sheet", ""], 0),
-                       _od_images(g, "s%d_" % s, 1)))
+    for s in range(g.count("sheets", 1, 2, 2)):
+        sheets.append((g.pick("s%d_data" % s, [[["h", 1], [None, 2.5]], []]), g.pick("s%d_name" % s, ["Sheet", ""], lvl=2),
+                       _od_images(g, "s%d_" % s, 1, 1, 1)))
 
     def make():
         return dt.OdsContent(metadata=dt.OpenDocumentMetadata(title="T"),
-                             sheets=[dt.OdsSheet(name=nm, data=[list(r) for r in data], text=" txt ",
+                             sheets=[dt.OdsSheet(name=nm, data=_rows(data), text=" txt ",
                                                  annotations=[dt.OpenDocumentAnnotation("c", "d", "t")],
                                                  images=[_od_image(dt, k, i) for k, i in enumerate(imgs)])
                                      for data, nm, imgs in sheets])
@@ -454,21 +462,21 @@ def spec_odt(g):
     dt = _dt()
     ctx = g.ctx
     kinds = ["heading", "body", "table-paragraph", "blank-heading"]
-    n = g.count("paragraphs", 3 if g.sz != 1 else 2)
+    n = g.count("paragraphs", 3, 2, 3)
     paras = []
     for i in range(n):
-        kind = g.pick("para%d_kind" % i, kinds, (0, 1, 0)[i % 3])
+        kind = g.pick("para%d_kind" % i, kinds[:3] if g.sz < 2 else kinds, default=(0, 1, 0)[i % 3])
         if kind == "heading":
             paras.append(("Head %d" % i, None, g.int("para%d_outline_level" % i, 1, 3)))
         elif kind == "blank-heading":
             paras.append(("  ", None, g.int("para%d_outline_level" % i, 1, 3)))
         elif kind == "body":
-            paras.append((g.pick("para%d_text" % i, ["Intro cap1 h1 h2", "other"], 0), "Standard", None))
+            paras.append((g.pick("para%d_text" % i, ["Intro cap1 h1 h2", "other"], lvl=2), "Standard", None))
         else:
             paras.append(("cell", ctx.fresh_chars("para%d_style" % i, 6, 84, 122), None))
-    imgs = _od_images(g, "", 1 if g.sz < 2 else 2)
-    n_tabs = g.count("tables", 1 if g.sz < 2 else 2)
-    title = g.pick("title", ["", "T"], 1)
+    imgs = _od_images(g, "", 1, 1, 2, captions=("", "cap1"), caption_lvl=1)
+    n_tabs = g.count("tables", 1, 1, 2)
+    title = g.pick("title", ["T", ""], lvl=2)
 
     def make():
         return dt.OdtContent(
@@ -484,12 +492,13 @@ def spec_odt(g):
 
 def spec_rtf(g):
     dt = _dt()
-    pages = g.pick("pages", [["page one", " ", "page three"], [], ["only"]], 0)
-    full_text = g.pick("full_text", ["full", ""], 0)
-    imgs = [dict(page_number=g.opt_int("img%d_page" % i, 0, 3), width=g.int("img%d_width" % i, -1, 31),
-                 has_data=g.pick("img%d_has_data" % i, [True, False], 0))
-            for i in range(g.count("images", 1 if g.sz < 2 else 2))]
-    tabs = [g.opt_int("table%d_page" % i, 0, 3) for i in range(g.count("tables", 1 if g.sz < 2 else 2))]
+    pages = g.pick("pages", [["page one", " ", "page three"], [], ["only"]])
+    full_text = g.pick("full_text", ["full", ""])
+    imgs = [dict(page_number=g.opt_int("img%d_page" % i, 0, 3 if g.sz != 1 else 2, none_lvl=1), width=g.int("img%d_width" % i, -1, 31, lvl=2),
+                 has_data=g.pick("img%d_has_data" % i, [True, False], lvl=2))
+            for i in range(g.count("images", 1, 1, 2))]
+    tabs = [g.opt_int("table%d_page" % i, 0, 1 if g.sz == 1 else 3, lvl=1, none_lvl=1, default=None)
+            for i in range(g.count("tables", 1, 1, 2))]
 
     def make():
         return dt.RtfContent(
@@ -507,12 +516,12 @@ def spec_rtf(g):
 def spec_epub(g):
     dt = _dt()
     chapters = []
-    for c in range(g.count("chapters", 2)):
-        chapters.append((g.int("ch%d_number" % c, 0, 3), g.pick("ch%d_text" % c, [" chapter text ", ""], 0),
-                         g.count("ch%d_images" % c, 1), _tables(g, "ch%d_tables" % c, 1)))
-    imgs = [dict(width=g.opt_int("img%d_width" % i, -1, 2), unit_index=g.opt_int("img%d_unit" % i, 0, 3),
-                 has_data=g.pick("img%d_has_data" % i, [True, False], 0))
-            for i in range(max([0] + [k for _, _, k, _ in chapters]) + g.count("unreferenced_images", 1))]
+    for c in range(g.count("chapters", 1, 2, 2)):
+        chapters.append((g.int("ch%d_number" % c, 0, 3), g.pick("ch%d_text" % c, [" chapter text ", ""], lvl=2),
+                         g.count("ch%d_images" % c, 1, 1, 1), _tables(g, "ch%d_tables" % c, 1, 1, 2)))
+    imgs = [dict(width=g.opt_int("img%d_width" % i, -1, 2), unit_index=g.opt_int("img%d_unit" % i, 0, 3, none_lvl=3),
+                 has_data=g.pick("img%d_has_data" % i, [True, False], lvl=3))
+            for i in range(max([0] + [k for _, _, k, _ in chapters]) + g.count("unreferenced_images", 0, 1, 1))]
 
     def make():
         images = [dt.EpubImage(image_index=k + 1, href="i%d.png" % k, content_type=" image/png",
@@ -520,7 +529,7 @@ def spec_epub(g):
                                unit_index=i["unit_index"]) for k, i in enumerate(imgs)]
         return dt.EpubContent(metadata=dt.EpubMetadata(title="T", epub_version="3.0"),
                               chapters=[dt.EpubChapter(chapter_number=n, href="c%d.xhtml" % k, title="Ch", text=t,
-                                                       images=images[:ni], tables=[[list(r) for r in tb] for tb in tabs])
+                                                       images=images[:ni], tables=[_rows(tb) for tb in tabs])
                                         for k, (n, t, ni, tabs) in enumerate(chapters)],
                               images=images, toc=[{"title": "Ch", "href": "c0.xhtml"}])
     return make
@@ -679,7 +688,6 @@ def k1_observers(ctx):
         raise S.BoundExceeded("no instance generator for content type %s" % kind)
     ctx.decision_memo = {}
     obs = list(_observers(kind, alphabet))
-    calls = [0]
     if ctx.perturb == "observer_writes_metadata":
         def bad(c):
             m = c.get_metadata()
@@ -693,7 +701,8 @@ def k1_observers(ctx):
         obs[0] = ("get_full_text (with call counter)", counting)
     with ctx.shadow(dt, _join_unit_text=_join_variant() if not ctx.concrete else None):
         make = SPECS[kind](G(ctx, ctx.params.get("size", 1)))
-        seq = [ctx.choice("observer%d" % i, len(obs)) for i in range(L)]
+        seq = [ctx.params["first"] if i == 0 and "first" in ctx.params else ctx.pick("observer%d" % i, len(obs))
+               for i in range(L)]
         names = [obs[i][0] for i in seq]
         mask = _mask_image_unit_name if kind == "odt" else (lambda v: v)
         skip_known = KNOWN_ODT in ctx.params.get("known_active", [])
@@ -718,16 +727,25 @@ def k1_observers(ctx):
                 ctx.require(r2, "to_json-changed-by-observers", differs_at=where2, only="OpenDocumentImage.unit_name", **info)
 
 
+_SPLIT_BY_FIRST = {"quick": {("odt", 1)}, "thorough": {("odt", 1), ("odt", 2), ("ods", 2), ("odp", 2), ("pptx", 2), ("docx", 2),
+                                                         ("epub", 2)}}
+
+
 def _k1_parts(tier):
-    kinds = sorted(SPECS)
+    """quick: every sequence of 3 observers on the one-of-everything instances (size 0) and every pair on the
+    instances with element counts as choices (size 1).  thorough: triples on size 1, pairs on size 2 (vocabularies
+    as choices too), and the finer observer alphabet (unit/image accessors separately, abandoned iterators)."""
     missing = [n for n in _content_classes() if n[:-len("Content")].lower().replace("plaintext", "plain") not in SPECS]
+    plan = [(3, 0, "merged"), (2, 1, "merged")] if tier == "quick" else \
+        [(3, 1, "merged"), (2, 2, "merged"), (3, 0, "split"), (2, 1, "split")]
     parts = []
-    for k in kinds:
-        if tier == "quick":
-            parts += [{"type": k, "L": 3, "size": 0, "alphabet": "merged"}, {"type": k, "L": 2, "size": 1, "alphabet": "merged"}]
-        else:
-            parts += [{"type": k, "L": 3, "size": 1, "alphabet": "merged"}, {"type": k, "L": 2, "size": 2, "alphabet": "split"},
-                      {"type": k, "L": 3, "size": 0, "alphabet": "split"}]
+    for k in sorted(SPECS):
+        for L, size, alphabet in plan:
+            base = {"type": k, "L": L, "size": size, "alphabet": alphabet}
+            if (k, size) in _SPLIT_BY_FIRST[tier]:
+                parts += [dict(base, first=i) for i in range(len(_observers(k, alphabet)))]
+            else:
+                parts.append(base)
     parts += [{"type": m, "L": 1, "size": 0} for m in missing]
     return parts
 
@@ -740,12 +758,1189 @@ def _k1_targets():
     return out + [serialization._serialize_for_json, serialization._bytesio_to_base64]
 
 
+# =======================================================================================
+# K2: set-to-sequence sites, iteration order as a symbolic permutation
+# =======================================================================================
+
+SCAN_ROOT = S.REPO + "/sharepoint2text"
+SCAN_SKIP = ("/tests", "/sharepoint_io")
+_INSENSITIVE = {"sorted", "set", "frozenset", "len", "sum", "min", "max", "any", "all", "bool"}
+_SET_METHODS = {"union", "intersection", "difference", "symmetric_difference", "copy"}
+_SCAN_CACHE = {}
+
+
+def _ann_is_set(ann):
+    import ast
+    if ann is None:
+        return False
+    txt = ast.unparse(ann)
+    head = txt.split("[", 1)[0].strip().split(".")[-1]
+    if head in ("set", "Set", "frozenset", "FrozenSet", "AbstractSet", "MutableSet"):
+        return True
+    if head == "Optional" and "[" in txt:
+        return txt.split("[", 1)[1].split("[", 1)[0].strip().split(".")[-1] in ("set", "Set", "frozenset", "FrozenSet")
+    return False
+
+
+def scan_source(src, filename):
+    """Locate the places where the iteration order of a set can become the order of a sequence:
+    list/tuple/enumerate/iter/zip/map/filter(set), '<sep>'.join(set), set.pop(), list.extend(set),
+    *set, for-loops and list/dict/generator comprehensions over a set.  A set-typed expression is a
+    set display/comprehension, set()/frozenset(), a set operator/method on one, d.get/setdefault(k,
+    <set>), or a name / self attribute / annotated parameter bound to one (per scope, to fixpoint).
+    Consumers that cannot see the order (sorted, set, len, sum, min, max, any, all, membership) are
+    not sites.  Returns [(site dict, ast node of the site, ast tree)]."""
+    import ast
+    tree = ast.parse(src)
+    for n in ast.walk(tree):
+        for ch in ast.iter_child_nodes(n):
+            ch._parent = n
+    tree._parent = None
+    attrs, scopes = set(), {}
+
+    def scope_of(node):
+        n = node
+        while not isinstance(n, (ast.FunctionDef, ast.AsyncFunctionDef, ast.Lambda, ast.Module)):
+            n = n._parent
+        if n not in scopes:
+            scopes[n] = [set(), scope_of(n._parent) if n._parent is not None else None]
+        return scopes[n]
+
+    def bound(sc, name):
+        while sc is not None:
+            if name in sc[0]:
+                return True
+            sc = sc[1]
+        return False
+
+    def is_set(e):
+        if isinstance(e, (ast.Set, ast.SetComp)):
+            return True
+        if isinstance(e, ast.Call):
+            f = e.func
+            if isinstance(f, ast.Name) and f.id in ("set", "frozenset"):
+                return True
+            if isinstance(f, ast.Attribute):
+                if f.attr in _SET_METHODS and is_set(f.value):
+                    return True
+                if f.attr in ("get", "setdefault", "pop") and len(e.args) == 2 and is_set(e.args[1]):
+                    return True
+            return False
+        if isinstance(e, ast.BinOp) and isinstance(e.op, (ast.BitOr, ast.BitAnd, ast.Sub, ast.BitXor)):
+            return is_set(e.left) or is_set(e.right)
+        if isinstance(e, ast.Name):
+            return bound(scope_of(e), e.id)
+        if isinstance(e, ast.Attribute):
+            return e.attr in attrs and isinstance(e.value, ast.Name) and e.value.id in ("self", "cls")
+        if isinstance(e, ast.IfExp):
+            return is_set(e.body) or is_set(e.orelse)
+        if isinstance(e, ast.BoolOp):
+            return any(is_set(v) for v in e.values)
+        return False
+
+    changed = [True]
+
+    def bind(target, node):
+        if isinstance(target, ast.Name):
+            sc = scope_of(node)
+            if target.id not in sc[0]:
+                sc[0].add(target.id)
+                changed[0] = True
+        elif isinstance(target, ast.Attribute) and isinstance(target.value, ast.Name) and target.value.id in ("self", "cls"):
+            if target.attr not in attrs:
+                attrs.add(target.attr)
+                changed[0] = True
+
+    while changed[0]:
+        changed[0] = False
+        for n in ast.walk(tree):
+            if isinstance(n, ast.Assign) and is_set(n.value):
+                for t in n.targets:
+                    bind(t, n)
+            elif isinstance(n, ast.AnnAssign) and (_ann_is_set(n.annotation) or (n.value is not None and is_set(n.value))):
+                bind(n.target, n)
+            elif isinstance(n, (ast.AugAssign, ast.NamedExpr)) and is_set(n.value):
+                bind(n.target, n)
+            elif isinstance(n, (ast.FunctionDef, ast.AsyncFunctionDef)) and n.body:
+                for a_ in n.args.args + n.args.kwonlyargs + n.args.posonlyargs:
+                    if _ann_is_set(a_.annotation):
+                        sc = scope_of(n.body[0])
+                        if a_.arg not in sc[0]:
+                            sc[0].add(a_.arg)
+                            changed[0] = True
+
+    def blind_consumer(node):
+        p_ = node._parent
+        if isinstance(p_, ast.Call) and isinstance(p_.func, ast.Name) and p_.func.id in _INSENSITIVE and node in p_.args:
+            return True
+        return isinstance(p_, ast.Compare) and node in p_.comparators and all(isinstance(o, (ast.In, ast.NotIn)) for o in p_.ops)
+
+    def func_of(node):
+        names, n = [], node
+        while n is not None:
+            if isinstance(n, (ast.FunctionDef, ast.AsyncFunctionDef, ast.ClassDef)):
+                names.append(n.name)
+            n = n._parent
+        return ".".join(reversed(names)) or "<module>"
+
+    found = []
+
+    def add(node, kind, expr):
+        found.append(({"file": filename, "line": node.lineno, "function": func_of(node), "kind": kind,
+                       "expr": ast.unparse(expr)[:100]}, node, tree))
+
+    for n in ast.walk(tree):
+        if isinstance(n, ast.Call):
+            f = n.func
+            if isinstance(f, ast.Name) and f.id in ("list", "tuple", "enumerate", "iter", "zip", "map", "filter", "reversed") \
+                    and any(is_set(x) for x in n.args):
+                if not blind_consumer(n):
+                    add(n, f.id + "(set)", n)
+            elif isinstance(f, ast.Attribute) and f.attr == "join" and n.args and is_set(n.args[0]):
+                add(n, "join(set)", n)
+            elif isinstance(f, ast.Attribute) and f.attr == "pop" and not n.args and is_set(f.value):
+                add(n, "set.pop()", n)
+            elif isinstance(f, ast.Attribute) and f.attr == "extend" and n.args and is_set(n.args[0]):
+                add(n, "extend(set)", n)
+        elif isinstance(n, ast.For) and is_set(n.iter):
+            add(n, "for-over-set", n.iter)
+        elif isinstance(n, (ast.ListComp, ast.GeneratorExp, ast.DictComp)):
+            if any(is_set(g_.iter) for g_ in n.generators) and not blind_consumer(n):
+                add(n, "comprehension-over-set", n)
+        elif isinstance(n, ast.Starred) and is_set(n.value):
+            add(n, "*set", n)
+    return found
+
+
+def scan_file(path):
+    if path not in _SCAN_CACHE:
+        with open(path, encoding="utf-8") as f:
+            _SCAN_CACHE[path] = scan_source(f.read(), path[len(S.REPO) + 1:])
+    return _SCAN_CACHE[path]
+
+
+def scan_sites():
+    """{site key: (site dict, node, tree)} over the package (tests and sharepoint_io excluded)"""
+    if "*" in _SCAN_CACHE:
+        return _SCAN_CACHE["*"]
+    out = _SCAN_CACHE["*"] = {}
+    for d, _, files in sorted(os.walk(SCAN_ROOT)):
+        if any(x in d for x in SCAN_SKIP):
+            continue
+        for f in sorted(files):
+            if f.endswith(".py"):
+                per_fn = {}
+                for site, node, tree in scan_file(os.path.join(d, f)):
+                    k = per_fn[site["function"]] = per_fn.get(site["function"], 0) + 1
+                    out["%s::%s::%d" % (site["file"], site["function"], k)] = (site, node, tree)
+    return out
+
+
+class _Perm:
+    """state of one evaluation of a site: which permutation family its sets draw from"""
+    ctx = None
+    family = ""
+    sets = 0
+    symbolic_strings = False     # arrange equal-length strings as if-then-else terms (else: fork)
+
+
+def _same_length_strings(elems):
+    if not all(isinstance(e, (str, S.CharStr)) for e in elems):
+        return False
+    return len({len(e) for e in elems}) == 1 and len(elems[0]) > 0
+
+
+class PermSet:
+    """set stand-in: elements kept distinct by equality decided by the solver; iteration order is
+    an arbitrary permutation, drawn once per (unchanged) set as symbolic ints.  Strings of one length
+    are arranged symbolically (position j holds the element e with pi(e) = j, as if-then-else terms
+    per character), anything else by forking over the permutation's values."""
+
+    def __init__(self, items=()):
+        self.elems = []
+        self._order = None
+        for x in items:
+            self.add(x)
+
+    @staticmethod
+    def _eq(a, b):
+        if isinstance(b, S.CharStr) and not isinstance(a, S.CharStr):
+            a, b = b, a
+        r = a == b
+        return bool(r)
+
+    def add(self, x):
+        for e in self.elems:
+            if self._eq(e, x):
+                return
+        self.elems.append(x)
+        self._order = None
+
+    def update(self, *others):
+        for o in others:
+            for x in o:
+                self.add(x)
+
+    def discard(self, x):
+        for i, e in enumerate(self.elems):
+            if self._eq(e, x):
+                del self.elems[i]
+                self._order = None
+                return
+
+    def __contains__(self, x):
+        return any(self._eq(e, x) for e in self.elems)
+
+    def __len__(self):
+        return len(self.elems)
+
+    def __bool__(self):
+        return bool(self.elems)
+
+    def __or__(self, o):
+        r = PermSet(self.elems)
+        r.update(o)
+        return r
+
+    __ror__ = __or__
+
+    def copy(self):
+        return PermSet(self.elems)
+
+    def __iter__(self):
+        if self._order is None:
+            self._order = self._arrange()
+        return iter(self._order)
+
+    def _arrange(self):
+        k = len(self.elems)
+        if k <= 1:
+            return list(self.elems)
+        ctx = _Perm.ctx
+        _Perm.sets += 1
+        ps = [ctx.fresh_int("%s_set%d_position_of_element%d" % (_Perm.family, _Perm.sets, i), 0, k - 1) for i in range(k)]
+        ctx.assume(z3.Distinct(*[p_.z for p_ in ps]))
+        if _Perm.symbolic_strings and _same_length_strings(self.elems):
+            codes = [S.CharStr._codes(e) for e in self.elems]
+            out = []
+            for j in range(k):
+                chars = []
+                for t in range(len(codes[0])):
+                    term = S._as_int_term(codes[k - 1][t])
+                    for i in range(k - 2, -1, -1):
+                        term = z3.If(ps[i].z == j, S._as_int_term(codes[i][t]), term)
+                    chars.append(S.SymInt(term))
+                out.append(S.CharStr(chars))
+            return out
+        vals = [ctx.conc(p_, 0, k - 1) for p_ in ps]
+        return [self.elems[i] for i in sorted(range(k), key=lambda i: vals[i])]
+
+
+def _permset_rewrite(node):
+    """copy of an AST with every set construction replaced by __permset__(<list of the elements>)"""
+    import ast
+    import copy
+
+    class RW(ast.NodeTransformer):
+        def visit_Set(self, n):
+            self.generic_visit(n)
+            return ast.copy_location(ast.Call(ast.Name("__permset__", ast.Load()), [ast.List(n.elts, ast.Load())], []), n)
+
+        def visit_SetComp(self, n):
+            self.generic_visit(n)
+            return ast.copy_location(ast.Call(ast.Name("__permset__", ast.Load()), [ast.ListComp(n.elt, n.generators)], []), n)
+
+        def visit_Call(self, n):
+            self.generic_visit(n)
+            if isinstance(n.func, ast.Name) and n.func.id in ("set", "frozenset"):
+                return ast.copy_location(ast.Call(ast.Name("__permset__", ast.Load()), n.args, []), n)
+            return n
+
+    return ast.fix_missing_locations(RW().visit(copy.deepcopy(node)))
+
+
+def _enclosing(node, kinds):
+    n = node
+    while n is not None and not isinstance(n, kinds):
+        n = getattr(n, "_parent", None)
+    return n
+
+
+def _site_callable(key):
+    """('expr', fn(env) -> value) for a site inside a statement `name = <expr>`, evaluated on its own;
+    ('func', variant of the enclosing function) otherwise.  Source read live from /repo."""
+    import ast
+    import importlib
+    site, node, tree = scan_sites()[key]
+    modname = site["file"][:-3].replace("/", ".")
+    mod = importlib.import_module(modname)
+    glob = dict(vars(mod))
+    glob["__permset__"] = PermSet
+    fn_node = _enclosing(node, (ast.FunctionDef, ast.AsyncFunctionDef))
+    return site, node, fn_node, glob
+
+
+def _eval_site_expr(key):
+    import ast
+    if ("expr", key) in _VARIANTS:
+        return _VARIANTS[("expr", key)]
+    site, node, fn_node, glob = _site_callable(key)
+    stmt = _enclosing(node, (ast.Assign, ast.AnnAssign, ast.Return, ast.Expr))
+    expr = _permset_rewrite(stmt.value)
+    code = compile(ast.Expression(expr), S.REPO + "/" + site["file"], "eval")
+    _VARIANTS[("expr", key)] = lambda env: eval(code, glob, dict(env))
+    return _VARIANTS[("expr", key)]
+
+
+def _func_variant(key):
+    import ast
+    if ("func", key) in _VARIANTS:
+        return _VARIANTS[("func", key)]
+    site, node, fn_node, glob = _site_callable(key)
+    fd = _permset_rewrite(fn_node)
+    fd.decorator_list = []
+    fd.returns = None
+    for a_ in fd.args.args + fd.args.kwonlyargs:
+        a_.annotation = None
+    for n in ast.walk(fd):
+        if isinstance(n, ast.AnnAssign) and n.value is not None:
+            n.annotation = ast.Constant(None)
+    mod_ast = ast.fix_missing_locations(ast.Module([fd], []))
+    exec(compile(mod_ast, S.REPO + "/" + site["file"], "exec"), glob)
+    _VARIANTS[("func", key)] = glob[fd.name]
+    return glob[fd.name]
+
+
+# ---- replay: the real readers in fresh interpreters with different hash seeds -------------
+
+_CHILD = r"""
+import sys, io, json, base64, hashlib
+job = json.loads(sys.stdin.read())
+if job["kind"] == "read":
+    from sharepoint2text.parsing.router import get_extractor
+    data = base64.b64decode(job["data"])
+    res = list(get_extractor(job["name"])(io.BytesIO(data), job["name"]))
+    js = [r.to_json() for r in res]
+    print(json.dumps({"sha": hashlib.sha256(json.dumps(js, sort_keys=True, default=str).encode()).hexdigest(),
+                      "styles": js[0].get("styles")}))
+else:
+    from sharepoint2text.parsing.extractors.serialization import deserialize_extraction, serialize_extraction
+    obj = deserialize_extraction(job["json"])
+    print(json.dumps({"sha": hashlib.sha256(json.dumps(serialize_extraction(obj), sort_keys=True, default=str).encode()).hexdigest(),
+                      "styles": list(vars(obj))}))
+"""
+
+
+def run_under_seeds(job, seeds, stop_on_difference=True):
+    """result of the job in one fresh interpreter per PYTHONHASHSEED value"""
+    import json
+    import subprocess
+    import sys
+    out = []
+    for sd in seeds:
+        env = dict(os.environ, PYTHONHASHSEED=str(sd), PYTHONDONTWRITEBYTECODE="1")
+        pr = subprocess.run([sys.executable, "-c", _CHILD], input=json.dumps(job).encode(), env=env,
+                            stdout=subprocess.PIPE, stderr=subprocess.PIPE, timeout=120)
+        if pr.returncode != 0:
+            raise RuntimeError("reader process failed: " + pr.stderr.decode()[-300:])
+        out.append((sd, json.loads(pr.stdout.decode())))
+        if stop_on_difference and out[-1][1] != out[0][1]:
+            break
+    return out
+
+
+def _zip_bytes(members, stored_first=False):
+    import zipfile
+    b = io.BytesIO()
+    with zipfile.ZipFile(b, "w") as z:
+        for i, (n, d) in enumerate(members):
+            zi = zipfile.ZipInfo(n, date_time=(2020, 1, 1, 0, 0, 0))
+            zi.compress_type = zipfile.ZIP_STORED if (stored_first and i == 0) else zipfile.ZIP_DEFLATED
+            z.writestr(zi, d)
+    return b.getvalue()
+
+
+def write_docx(styles):
+    """minimal WordprocessingML package: one paragraph per entry, with that paragraph style (None: no style)"""
+    W = "http://schemas.openxmlformats.org/wordprocessingml/2006/main"
+    R = "http://schemas.openxmlformats.org/officeDocument/2006/relationships"
+    paras = "".join('<w:p>%s<w:r><w:t>p%d</w:t></w:r></w:p>' % ('<w:pPr><w:pStyle w:val="%s"/></w:pPr>' % s_ if s_ else "", i)
+                    for i, s_ in enumerate(styles))
+    ct = ('<?xml version="1.0" encoding="UTF-8"?><Types xmlns="http://schemas.openxmlformats.org/package/2006/content-types">'
+          '<Default Extension="rels" ContentType="application/vnd.openxmlformats-package.relationships+xml"/>'
+          '<Default Extension="xml" ContentType="application/xml"/><Override PartName="/word/document.xml" '
+          'ContentType="application/vnd.openxmlformats-officedocument.wordprocessingml.document.main+xml"/></Types>')
+    rels = ('<?xml version="1.0" encoding="UTF-8"?><Relationships xmlns="http://schemas.openxmlformats.org/package/2006/relationships">'
+            '<Relationship Id="rId1" Type="%s/officeDocument" Target="word/document.xml"/></Relationships>' % R)
+    doc = '<?xml version="1.0" encoding="UTF-8"?><w:document xmlns:w="%s"><w:body>%s</w:body></w:document>' % (W, paras)
+    return _zip_bytes([("[Content_Types].xml", ct), ("_rels/.rels", rels), ("word/document.xml", doc)])
+
+
+_ODF_NS = ('xmlns:office="urn:oasis:names:tc:opendocument:xmlns:office:1.0" '
+           'xmlns:style="urn:oasis:names:tc:opendocument:xmlns:style:1.0" '
+           'xmlns:text="urn:oasis:names:tc:opendocument:xmlns:text:1.0"')
+
+
+def write_odt(content_styles, styles_styles):
+    """minimal OpenDocument text: automatic styles of content.xml and styles of styles.xml with the given names"""
+    def decl(names):
+        return "".join('<style:style style:family="paragraph"%s/>' % (' style:name="%s"' % n if n is not None else "") for n in names)
+    content = ('<?xml version="1.0" encoding="UTF-8"?><office:document-content %s><office:automatic-styles>%s'
+               '</office:automatic-styles><office:body><office:text><text:p>hello</text:p></office:text></office:body>'
+               '</office:document-content>' % (_ODF_NS, decl(content_styles)))
+    styles = ('<?xml version="1.0" encoding="UTF-8"?><office:document-styles %s><office:styles>%s</office:styles>'
+              '</office:document-styles>' % (_ODF_NS, decl(styles_styles)))
+    man = ('<?xml version="1.0" encoding="UTF-8"?><manifest:manifest xmlns:manifest="urn:oasis:names:tc:opendocument:xmlns:manifest:1.0">'
+           '<manifest:file-entry manifest:full-path="/" manifest:media-type="application/vnd.oasis.opendocument.text"/>'
+           '<manifest:file-entry manifest:full-path="content.xml" manifest:media-type="text/xml"/>'
+           '<manifest:file-entry manifest:full-path="styles.xml" manifest:media-type="text/xml"/></manifest:manifest>')
+    return _zip_bytes([("mimetype", "application/vnd.oasis.opendocument.text"), ("content.xml", content),
+                       ("styles.xml", styles), ("META-INF/manifest.xml", man)], stored_first=True)
+
+
+def _names(ctx, prefix, n, length):
+    """n style names: absent (None) / empty / a name of `length` symbolic lower-case letters"""
+    out = []
+    for i in range(n):
+        kind = ctx.pick("%s%d_kind" % (prefix, i), 3 if n <= 2 else 1)
+        if kind == 0:
+            out.append(ctx.fresh_chars("%s%d" % (prefix, i), length, 97, 122))
+        else:
+            out.append(None if kind == 1 else "")
+    return out
+
+
+class _FakeStyle:
+    def __init__(self, name):
+        self.name = name
+
+    def get(self, attr, default=None):
+        return self.name if attr.endswith("}name") else default
+
+
+class _FakeRoot:
+    """what _extract_styles_from_context needs from an ElementTree root"""
+
+    def __init__(self, names, tag):
+        self.names, self.tag_wanted = names, tag
+
+    def iter(self, tag=None):
+        return iter([_FakeStyle(n) for n in self.names]) if tag == self.tag_wanted else iter(())
+
+
+def _permutation_of(r1, r2):
+    """r1 is a rearrangement of r2 (lists of strings): python bool or z3 Bool"""
+    import itertools
+    if len(r1) != len(r2):
+        return False
+    alts = []
+    for sg in itertools.permutations(range(len(r2))):
+        c = Cmp()
+        for j, sj in enumerate(sg):
+            c.leaf(r1[j], r2[sj], "/%d" % j)
+        r = c.result()
+        if r is True:
+            return True
+        if r is not False:
+            alts.append(r)
+    if not alts:
+        return False
+    return z3.Or(*alts) if len(alts) > 1 else alts[0]
+
+
+def _drive_docx(ctx, key):
+    n = ctx.params.get("n", 2)
+    names = _names(ctx, "style", n, ctx.params.get("name_len", 2))
+    if ctx.concrete:
+        k = len({x for x in names if x})
+        runs = run_under_seeds({"kind": "read", "name": "x.docx", "data": base64.b64encode(write_docx(names)).decode()},
+                               range(24) if k >= 2 else range(2))
+        return [r["styles"] for _, r in runs], [r["sha"] for _, r in runs], names
+
+    class Para:
+        def __init__(self, style):
+            self.style = style
+    ev = _eval_site_expr(key)
+    out = []
+    for fam in ("order1", "order2"):
+        _Perm.family, _Perm.sets = fam, 0
+        out.append(ev({"paragraphs": [Para(x) for x in names]}))
+    return out, out, names
+
+
+def _drive_odt(ctx, key):
+    import importlib
+    n = ctx.params.get("n", 2)
+    n_content = ctx.pick("names_in_content_xml", n + 1)
+    names = _names(ctx, "style", n, ctx.params.get("name_len", 2))
+    if ctx.concrete:
+        k = len({x for x in names if x})
+        runs = run_under_seeds({"kind": "read", "name": "x.odt",
+                                "data": base64.b64encode(write_odt(names[:n_content], names[n_content:])).decode()},
+                               range(24) if k >= 2 else range(2))
+        return [r["styles"] for _, r in runs], [r["sha"] for _, r in runs], names
+    mod = importlib.import_module("sharepoint2text.parsing.extractors.open_office.odt_extractor")
+    fn = _func_variant(key)
+
+    class FakeCtx:
+        content_root = _FakeRoot(names[:n_content], mod._STYLE_STYLE_TAG)
+        styles_root = _FakeRoot(names[n_content:], mod._STYLE_STYLE_TAG) if ctx.pick("styles_xml_present", 2) == 0 or \
+            n_content < n else None
+    out = []
+    for fam in ("order1", "order2"):
+        _Perm.family, _Perm.sets = fam, 0
+        out.append(fn(FakeCtx()))
+    return out, out, names
+
+
+_DESER_CASES = [("TableDim", {"rows": "int", "columns": "int"}), ("EmailAddress", {"name": "str", "address": "str"}),
+                ("DocxHyperlink", {"text": "str", "url": "str"}), ("RtfFootnote", {"id": "int", "text": "str"}),
+                ("OdtNote", {"id": "str", "note_class": "str", "text": "str"})]
+
+
+def _drive_deserialize(ctx, key):
+    case = ctx.pick("class", len(_DESER_CASES))
+    cname, fields_ = _DESER_CASES[case]
+    data = {"_type": cname}
+    for i, (f, t) in enumerate(fields_.items()):
+        data[f] = ctx.fresh_int("field_%s" % f, 0, 9) if t == "int" else "v%d" % i
+    if ctx.concrete:
+        runs = run_under_seeds({"kind": "deserialize", "json": data}, range(3), stop_on_difference=False)
+        return [r["sha"] for _, r in runs], [r["sha"] for _, r in runs], data
+    fn = _func_variant(key)
+    expected = None
+    if ctx.perturb == "constructor_sees_keyword_order":
+        @dataclasses.dataclass(init=False)
+        class Rec:
+            a: int = 0
+            b: int = 0
+
+            def __init__(self, **kw):
+                self.a, self.b = list(kw), 0
+        data, expected = {"a": 1, "b": 2}, Rec
+    out = []
+    for fam in ("order1", "order2"):
+        _Perm.family, _Perm.sets = fam, 0
+        out.append(view(fn(dict(data), expected)))
+    return out, out, data
+
+
+SITE_DRIVERS = {
+    "sharepoint2text/parsing/extractors/ms_modern/docx_extractor.py::read_docx::1": _drive_docx,
+    "sharepoint2text/parsing/extractors/open_office/odt_extractor.py::_extract_styles_from_context::1": _drive_odt,
+    "sharepoint2text/parsing/extractors/serialization.py::_deserialize_dataclass::1": _drive_deserialize,
+}
+SEQUENCE_SITES = set(list(SITE_DRIVERS)[:2])     # the value at the site is itself a list that becomes a result field
+
+
+def k2_set_order(ctx):
+    key = ctx.params.get("site", list(SITE_DRIVERS)[0])
+    if key not in SITE_DRIVERS:
+        raise S.BoundExceeded("set-to-sequence site without an evaluation model: %s" % key)
+    if not ctx.concrete:
+        if key not in scan_sites():
+            raise S.BoundExceeded("site %s is no longer found by the scan" % key)
+        _Perm.ctx = ctx
+        _Perm.symbolic_strings = key in SEQUENCE_SITES
+    results, full, inputs = SITE_DRIVERS[key](ctx, key)
+    info = dict(site=key, inputs=repr(inputs)[:120])
+    first = results[0]
+    for other, other_full in zip(results[1:], full[1:]):
+        if key in SEQUENCE_SITES and isinstance(first, list) and isinstance(other, list):
+            same_content = _permutation_of(first, other) if ctx.perturb != "rearrangement_counts_as_change" else same(first, other)[0]
+            ctx.require(same_content, "set-order-changes-content", a=repr(first)[:80], b=repr(other)[:80], **info)
+        r, where = same(other_full, full[0])
+        ctx.require(r, "set-order-leaks-into-result", a=repr(first)[:80], b=repr(other)[:80], **info)
+    ctx.require(True, "evaluated")
+
+
+def _k2_parts(tier):
+    parts = []
+    for key in sorted(scan_sites()):
+        if key in SEQUENCE_SITES:
+            parts += [{"site": key, "n": n, "name_len": 2} for n in ((1, 2, 3) if tier == "quick" else (1, 2, 3, 4))]
+        else:
+            parts.append({"site": key})
+    return parts
+
+
+def _k2_targets():
+    import importlib
+    out = []
+    for key in SITE_DRIVERS:
+        f, fn, _ = key.split("::")
+        out.append(getattr(importlib.import_module(f[:-3].replace("/", ".")), fn))
+    return out
+
+
+# =======================================================================================
+# K3: stream handling on a stand-in stream with symbolic position
+# =======================================================================================
+
+POS_HI = 2 ** 32
+
+
+class SymStream(io.BytesIO):
+    """the caller's BytesIO in symbolic runs: the position is whatever seek() was given (a symbolic
+    int to begin with), every mutating call is recorded instead of performed"""
+
+    def __init__(self, ctx, content, pos):
+        super().__init__(content)
+        self._ctx, self._content, self.pos = ctx, content, pos
+        self.mutations, self.seeks, self.reads, self.closed_by_callee = [], [], 0, False
+
+    def tell(self):
+        return self.pos
+
+    def seek(self, off, whence=0):
+        self.seeks.append((off, whence))
+        self.pos = off if whence == 0 else (self.pos + off if whence == 1 else len(self._content) + off)
+        return self.pos
+
+    def read(self, n=-1):
+        self.reads += 1
+        size = len(self._content)
+        if isinstance(self.pos, int):
+            p0 = min(self.pos, size)
+        elif self.pos >= size:
+            p0 = size
+        else:
+            p0 = self._ctx.conc(self.pos, 0, size)
+        end = size if n is None or n < 0 else min(size, p0 + n)
+        self.pos = end if not isinstance(self.pos, int) or self.pos <= size else self.pos
+        return self._content[p0:end]
+
+    read1 = read
+
+    def readinto(self, b):
+        data = self.read(len(b))
+        b[:len(data)] = data
+        return len(data)
+
+    def getvalue(self):
+        return self._content
+
+    def write(self, b):
+        self.mutations.append("write")
+        return len(b)
+
+    def writelines(self, lines):
+        self.mutations.append("writelines")
+
+    def truncate(self, size=None):
+        self.mutations.append("truncate")
+        return 0
+
+    def getbuffer(self):
+        self.mutations.append("getbuffer")
+        return memoryview(self._content)
+
+    def close(self):
+        self.closed_by_callee = True
+
+    def seekable(self):
+        return True
+
+    def readable(self):
+        return True
+
+    def writable(self):
+        return True
+
+    def final_position(self):
+        return self.pos
+
+    def content_now(self):
+        return self._content
+
+
+class RecStream(io.BytesIO):
+    """the caller's BytesIO in concrete replay: a real BytesIO that also records mutating calls"""
+
+    def __init__(self, ctx, content, pos):
+        super().__init__(content)
+        super().seek(pos)
+        self.mutations, self.closed_by_callee = [], False
+
+    def write(self, b):
+        self.mutations.append("write")
+        return super().write(b)
+
+    def writelines(self, lines):
+        self.mutations.append("writelines")
+        return super().writelines(lines)
+
+    def truncate(self, size=None):
+        self.mutations.append("truncate")
+        return super().truncate(size)
+
+    def getbuffer(self):
+        self.mutations.append("getbuffer")
+        return super().getbuffer()
+
+    def close(self):
+        self.closed_by_callee = True        # kept open so that the harness can still look at it
+
+    def final_position(self):
+        return self.tell()
+
+    def content_now(self):
+        return self.getvalue()
+
+
+def _stream(ctx, content):
+    p0 = ctx.fresh_int("initial_position", 0, POS_HI)
+    return (RecStream if ctx.concrete else SymStream)(ctx, content, p0), p0
+
+
+def _moves(ctx, f, who):
+    """a third-party parser leaves the stream wherever it likes"""
+    f.seek(ctx.fresh_int("%s_leaves_stream_at" % who, 0, POS_HI))
+
+
+class _FakeZip:
+    """zipfile.ZipFile stand-in: records how it was opened, moves the stream, serves one manifest"""
+    opened = None
+
+    def __init__(self, ctx, spec):
+        self.ctx, self.spec = ctx, spec
+
+    def __call__(self, file_like, mode="r", *a, **k):
+        import zipfile
+        _FakeZip.opened.append(("open", mode))
+        if self.spec["open"] == "badzip":
+            _moves(self.ctx, file_like, "zipfile")
+            raise zipfile.BadZipFile("not a zip")
+        if self.spec["open"] == "oserror":
+            raise OSError("boom")
+        _moves(self.ctx, file_like, "zipfile")
+        outer = self
+
+        class Z:
+            def infolist(self):
+                if outer.spec["infolist"] == "raises":
+                    raise RuntimeError("central directory unreadable")
+                return [_Info(10, 0 if outer.spec["infolist"] == "bomb" else 10)]
+
+            def namelist(self):
+                return ["META-INF/manifest.xml"]
+
+            def read(self, name, pwd=None):
+                _moves(outer.ctx, file_like, "zipfile_read")
+                if outer.spec["manifest"] is None:
+                    raise KeyError(name)
+                return outer.spec["manifest"]
+
+            def close(self):
+                _FakeZip.opened.append(("close",))
+
+            def __enter__(self):
+                return self
+
+            def __exit__(self, *a):
+                self.close()
+                return False
+        return Z()
+
+
+class _Info:
+    filename = "m"
+
+    def __init__(self, file_size, compress_size):
+        self.file_size, self.compress_size = file_size, compress_size
+
+    def is_dir(self):
+        return False
+
+
+_MANIFESTS = [None,
+              b'<manifest:manifest xmlns:manifest="urn:oasis:names:tc:opendocument:xmlns:manifest:1.0"><manifest:file-entry '
+              b'manifest:full-path="content.xml"/></manifest:manifest>',
+              b'<manifest:manifest xmlns:manifest="urn:oasis:names:tc:opendocument:xmlns:manifest:1.0"><manifest:file-entry '
+              b'manifest:full-path="content.xml"><manifest:encryption-data/></manifest:file-entry></manifest:manifest>']
+
+
+def _zip_spec(ctx, with_manifest=False):
+    spec = {"open": ["ok", "badzip", "oserror"][ctx.pick("zip_open", 3)], "infolist": "ok", "manifest": None}
+    if spec["open"] == "ok":
+        spec["infolist"] = ["ok", "bomb", "raises"][ctx.pick("zip_infolist", 3)]
+        if with_manifest:
+            spec["manifest"] = _MANIFESTS[ctx.pick("manifest", len(_MANIFESTS))]
+    return spec
+
+
+class _FakeOle:
+    """olefile stand-ins.  isOleFile reads the magic AT THE CURRENT POSITION (olefile documentation /
+    source: 'file-like object: parsed as-is'), so the stream must be at 0 when it is called."""
+
+    def __init__(self, ctx, stream, biff=None):
+        self.ctx, self.stream, self.biff = ctx, stream, biff
+        self.answers = {}
+        self.started_at = []
+
+    def isOleFile(self, f=None, data=None):
+        self.started_at.append(f.tell())
+        _moves(self.ctx, f, "isOleFile")
+        return self.ctx.pick("is_ole_file", 2) == 0
+
+    def OleFileIO(self, f, *a, **k):
+        outer = self
+        _moves(self.ctx, f, "OleFileIO")
+
+        class O:
+            def exists(self, name):
+                if name not in outer.answers:
+                    outer.answers[name] = outer.ctx.fresh_bool("ole_has_" + name)
+                return outer.answers[name]
+
+            def openstream(self, name):
+                class St:
+                    def read(self, n=-1):
+                        return outer.biff
+                return St()
+
+            def close(self):
+                pass
+
+            def __enter__(self):
+                return self
+
+            def __exit__(self, *a):
+                return False
+        return O()
+
+
+def k3_streams(ctx):
+    import zipfile
+    import olefile
+    from sharepoint2text.parsing.extractors import serialization as ser
+    from sharepoint2text.parsing.extractors.util import zip_bomb as zb, zip_context as zc, encryption as enc
+    from sharepoint2text.parsing.exceptions import ExtractionZipBombError
+    dt = _dt()
+    fn = ctx.params.get("fn", "_bytesio_to_base64")
+    content = b"PK\x03\x04 caller's bytes"
+    ctx.decision_memo = {}
+    st, p0 = _stream(ctx, content)
+    info = dict(fn=fn)
+    raised = None
+    _FakeZip.opened = []
+    promised_position = None          # where the function's documentation promises to leave the stream
+    started = []
+
+    if fn == "_bytesio_to_base64":
+        binary = ctx.pick("include_binary", 2) == 0
+        img = dt.DocxImage(rel_id="r", data=st, image_index=1)
+        out = [ser.serialize_extraction(img, include_binary=binary) for _ in range(1 + ctx.pick("serialised_twice", 2))]
+        expected = {"_bytesio": base64.b64encode(content).decode("ascii")} if binary else None
+        if ctx.perturb == "expect_rewound":
+            promised_position = 0
+        else:
+            promised_position = p0
+        for o in out:
+            ctx.require(o["data"] == expected, "encoded-bytes-differ-from-buffer-content", got=repr(o["data"])[:60], **info)
+    elif fn in ("validate_zip_bytesio", "open_zipfile", "ZipContext"):
+        spec = _zip_spec(ctx)
+        info.update(spec)
+        with ctx.stub(zipfile, ZipFile=_FakeZip(ctx, spec)):
+            try:
+                if fn == "validate_zip_bytesio":
+                    zb.validate_zip_bytesio(st, source="x")
+                    promised_position = p0            # docstring: "Restores the original stream position."
+                elif fn == "open_zipfile":
+                    zb.open_zipfile(st, source="x")
+                else:
+                    zc.ZipContext(st)
+            except Exception as e:
+                raised = e
+                if fn == "validate_zip_bytesio":
+                    promised_position = p0
+        modes = [ev[1] for ev in _FakeZip.opened if ev[0] == "open"]
+        ctx.require(all(m == "r" for m in modes), "container-opened-writable", modes=modes, **info)
+        if spec["open"] == "ok" and spec["infolist"] == "ok":
+            ctx.require(raised is None, "accepted-container-raised", raised=repr(raised)[:80], **info)
+        if spec["open"] == "ok" and spec["infolist"] != "ok":
+            ctx.require(isinstance(raised, ExtractionZipBombError), "rejected-container-not-reported", raised=repr(raised)[:80], **info)
+            ctx.require(("close",) in _FakeZip.opened, "rejected-container-left-open", **info)
+    else:
+        biff = None
+        if fn == "is_xls_encrypted":
+            biff = ctx.fresh_bytes("workbook", ctx.params.get("biff_len", 6))
+        ole = _FakeOle(ctx, st, biff)
+        spec = _zip_spec(ctx, with_manifest=True) if fn == "is_odf_encrypted" else {}
+        info.update({k_: v for k_, v in spec.items() if k_ != "manifest"})
+        is_zip = ctx.pick("is_zipfile", 2) == 0 if fn == "is_odf_encrypted" else False
+
+        def fake_is_zipfile(f):
+            _moves(ctx, f, "is_zipfile")
+            return is_zip
+        with ctx.stub(olefile, isOleFile=ole.isOleFile, OleFileIO=ole.OleFileIO), \
+                ctx.stub(zipfile, ZipFile=_FakeZip(ctx, spec or {"open": "ok", "infolist": "ok", "manifest": None}),
+                         is_zipfile=fake_is_zipfile), \
+                ctx.shadow(enc, int=S.IntShadow, len=S.sym_len):
+            try:
+                verdict = getattr(enc, fn)(st)
+            except Exception as e:
+                raised, verdict = e, None
+        started = ole.started_at
+        if ctx.perturb == "parser_may_start_anywhere":
+            started = [p0]
+        if raised is None:
+            ctx.require(verdict is True or verdict is False or isinstance(verdict, S.SymBool), "verdict-not-bool",
+                        got=repr(verdict)[:40], **info)
+    for at in started:
+        ctx.require(at == 0, "parser-started-at-callers-position", **info)
+    ctx.require(not st.mutations, "callers-stream-written", calls=st.mutations, **info)
+    ctx.require(not st.closed_by_callee, "callers-stream-closed", **info)
+    ctx.require(st.content_now() == content, "callers-buffer-content-changed", **info)
+    if promised_position is not None:
+        ctx.require(st.final_position() == promised_position, "stream-position-not-restored",
+                    raised=type(raised).__name__ if raised else None, **info)
+
+
+K3_FUNCTIONS = ["_bytesio_to_base64", "validate_zip_bytesio", "open_zipfile", "ZipContext", "is_ooxml_encrypted",
+                "is_odf_encrypted", "is_xls_encrypted", "is_ppt_encrypted"]
+
+
+def _k3_targets():
+    from sharepoint2text.parsing.extractors import serialization as ser
+    from sharepoint2text.parsing.extractors.util import zip_bomb as zb, zip_context as zc, encryption as enc
+    return [ser._bytesio_to_base64, ser._serialize_for_json, zb.validate_zip_bytesio, zb.open_zipfile, zc.ZipContext.__init__,
+            enc.is_ooxml_encrypted, enc.is_odf_encrypted, enc.is_xls_encrypted, enc.is_ppt_encrypted]
+
+
+# =======================================================================================
+# K4: public readers on generated files: buffer untouched, result independent of the position
+# =======================================================================================
+
+def _tar_bytes(members):
+    import tarfile
+    b = io.BytesIO()
+    with tarfile.open(fileobj=b, mode="w") as t:
+        for n, d in members:
+            ti = tarfile.TarInfo(n)
+            ti.size = len(d)
+            t.addfile(ti, io.BytesIO(d))
+    return b.getvalue()
+
+
+def write_xlsx(core=None):
+    """minimal SpreadsheetML package with one sheet; core: None (no docProps/core.xml - the part is optional in OPC),
+    'dates' (core properties with dcterms:created/modified) or 'nodates' (core properties without them)"""
+    M = "http://schemas.openxmlformats.org/spreadsheetml/2006/main"
+    R = "http://schemas.openxmlformats.org/officeDocument/2006/relationships"
+    P = "http://schemas.openxmlformats.org/package/2006/relationships"
+    ct = ('<?xml version="1.0" encoding="UTF-8"?><Types xmlns="http://schemas.openxmlformats.org/package/2006/content-types">'
+          '<Default Extension="rels" ContentType="application/vnd.openxmlformats-package.relationships+xml"/>'
+          '<Default Extension="xml" ContentType="application/xml"/>'
+          '<Override PartName="/xl/workbook.xml" ContentType="application/vnd.openxmlformats-officedocument.spreadsheetml.sheet.main+xml"/>'
+          '<Override PartName="/xl/worksheets/sheet1.xml" ContentType="application/vnd.openxmlformats-officedocument.spreadsheetml.worksheet+xml"/>'
+          + ('<Override PartName="/docProps/core.xml" ContentType="application/vnd.openxmlformats-package.core-properties+xml"/>' if core else "")
+          + '</Types>')
+    rels = ('<?xml version="1.0" encoding="UTF-8"?><Relationships xmlns="%s"><Relationship Id="rId1" Type="%s/officeDocument" '
+            'Target="xl/workbook.xml"/>%s</Relationships>' % (P, R, '<Relationship Id="rId2" Type="http://schemas.openxmlformats.org/'
+            'package/2006/relationships/metadata/core-properties" Target="docProps/core.xml"/>' if core else ""))
+    wb = ('<?xml version="1.0" encoding="UTF-8"?><workbook xmlns="%s" xmlns:r="%s"><sheets><sheet name="S1" sheetId="1" r:id="rId1"/>'
+          '</sheets></workbook>' % (M, R))
+    wbrels = ('<?xml version="1.0" encoding="UTF-8"?><Relationships xmlns="%s"><Relationship Id="rId1" Type="%s/worksheet" '
+              'Target="worksheets/sheet1.xml"/></Relationships>' % (P, R))
+    sheet = ('<?xml version="1.0" encoding="UTF-8"?><worksheet xmlns="%s"><sheetData><row r="1"><c r="A1" t="inlineStr"><is><t>h</t></is></c>'
+             '<c r="B1"><v>1</v></c></row></sheetData></worksheet>' % M)
+    members = [("[Content_Types].xml", ct), ("_rels/.rels", rels), ("xl/workbook.xml", wb), ("xl/_rels/workbook.xml.rels", wbrels),
+               ("xl/worksheets/sheet1.xml", sheet)]
+    if core:
+        dates = ('<dcterms:created xsi:type="dcterms:W3CDTF">2015-01-01T10:00:00Z</dcterms:created>'
+                 '<dcterms:modified xsi:type="dcterms:W3CDTF">2015-01-02T10:00:00Z</dcterms:modified>') if core == "dates" else ""
+        members.append(("docProps/core.xml",
+                        '<?xml version="1.0" encoding="UTF-8"?><cp:coreProperties xmlns:cp="http://schemas.openxmlformats.org/package/2006/'
+                        'metadata/core-properties" xmlns:dc="http://purl.org/dc/elements/1.1/" xmlns:dcterms="http://purl.org/dc/terms/" '
+                        'xmlns:xsi="http://www.w3.org/2001/XMLSchema-instance"><dc:title>T</dc:title><dc:creator>me</dc:creator>%s'
+                        '</cp:coreProperties>' % dates))
+    return _zip_bytes(members)
+
+
+def _samples():
+    out = {
+        "txt": lambda: b"hello world\nline two\n",
+        "html": lambda: b"<html><head><title>T</title></head><body><h1>H</h1><p>para</p><table><tr><td>a</td><td>b</td></tr>"
+                        b"</table></body></html>",
+        "docx": lambda: write_docx(["Heading1", None, "Normal"]),
+        "odt": lambda: write_odt(["P1"], ["Standard"]),
+        "rtf": lambda: rb"{\rtf1\ansi{\fonttbl{\f0 Times;}}\f0 Hello \par World}",
+        "eml": lambda: b"From: a@b.c\r\nTo: x@y.z\r\nSubject: s\r\nDate: Thu, 01 Jan 2015 10:00:00 +0000\r\nMessage-ID: <1@b.c>\r\n\r\nbody text\r\n",
+        "mbox": lambda: b"From a@b.c Thu Jan  1 00:00:00 1970\r\nFrom: a@b.c\r\nTo: x@y.z\r\nSubject: s\r\nDate: Thu, 01 Jan 2015 10:00:00 +0000\r\n\r\nbody text\r\n",
+        "zip": lambda: _zip_bytes([("a.txt", b"member text"), ("b.html", b"<p>member</p>")]),
+        "xlsx": lambda: write_xlsx(None),
+        "xlsx+core-properties-with-dates": lambda: write_xlsx("dates"),
+        "xlsx+core-properties-without-dates": lambda: write_xlsx("nodates"),
+        "tar": lambda: _tar_bytes([("a.txt", b"member text")]),
+    }
+    try:
+        import pypdf
+
+        def pdf():
+            w = pypdf.PdfWriter()
+            w.add_blank_page(width=200, height=200)
+            b = io.BytesIO()
+            w.write(b)
+            return b.getvalue()
+        pdf()
+        out["pdf"] = pdf
+    except Exception:
+        pass
+    try:        # OOXML / ODF / EPUB package writers of the C14 check (optional: formats are skipped if unavailable)
+        from vf.props import c14
+        out.update({"pptx": lambda: c14.write_pptx([[]]), "epub": lambda: c14.write_epub([[]]),
+                    "odp": lambda: c14.write_odp([[]])})
+    except Exception:
+        pass
+    return out
+
+
+def _extract_all(fmt, stream):
+    from sharepoint2text.parsing.router import get_extractor
+    name = "x." + fmt.split("+")[0]
+    try:
+        return [view(c.to_json()) for c in get_extractor(name)(stream, name)]
+    except Exception as e:
+        return {"__raised__": type(e).__name__}
+
+
+KNOWN_XLSX_CLOCK = "C06-xlsx-missing-core-dates-filled-with-current-time"
+
+
+def _mask_xlsx_dates(v):
+    """result with XlsxMetadata.created/modified removed (class of the known finding: openpyxl fills
+    absent core-property dates with the current time)"""
+    if isinstance(v, dict):
+        drop = ("created", "modified") if (v.get("__class__") or v.get("_type")) == "XlsxMetadata" else ()
+        return {k: _mask_xlsx_dates(x) for k, x in v.items() if k not in drop}
+    if isinstance(v, (list, tuple)):
+        return [_mask_xlsx_dates(x) for x in v]
+    return v
+
+
+def k4_readers(ctx):
+    fmt = ctx.params.get("format", "txt")
+    data = _samples()[fmt]()
+    data = data.getvalue() if isinstance(data, io.BytesIO) else bytes(data)
+    n = len(data)
+    pos = [0, 1, n // 2, n, n + 7][ctx.pick("initial_position", 5)]
+    st = RecStream(ctx, data, pos)
+    info = dict(format=fmt, initial_position=pos)
+    reference = _extract_all(fmt, io.BytesIO(data if ctx.perturb != "reference_from_other_bytes" else write_docx(["Other"])))
+    ctx.require(not (isinstance(reference, dict) and "__raised__" in reference),
+                "sample-file-not-readable", got=repr(reference)[:80], **info)
+    runs = 1 + ctx.pick("extracted_again_from_the_same_stream", 2)
+    for i in range(runs):
+        got = _extract_all(fmt, st)
+        if ctx.perturb == "caller_stream_written_afterwards":
+            st.write(b"!")
+        mask = _mask_xlsx_dates if fmt.startswith("xlsx") else (lambda v: v)
+        r, where = same(mask(got), mask(reference))
+        ctx.require(r, "result-differs-between-extractions-of-the-same-bytes", run=i + 1, differs_at=where, **info)
+        if fmt.startswith("xlsx") and KNOWN_XLSX_CLOCK not in ctx.params.get("known_active", []):
+            r, where = same(got, reference)
+            ctx.require(r, "result-differs-between-extractions-of-the-same-bytes", run=i + 1, differs_at=where,
+                        only="XlsxMetadata.created/modified", **info)
+        ctx.require(not st.mutations, "callers-stream-written", calls=st.mutations, run=i + 1, **info)
+        ctx.require(st.getvalue() == data, "callers-buffer-content-changed", run=i + 1, **info)
+        ctx.require(not st.closed_by_callee, "callers-stream-closed", run=i + 1, **info)
+
+
+def _k4_targets():
+    from sharepoint2text.parsing.router import get_extractor
+    return [get_extractor("x." + f) for f in sorted({f.split("+")[0] for f in _samples()})]
+
+
 KERNELS = [
     Kernel("K1", "observers are idempotent and leave to_json() unchanged: every content type, every sequence of <= 3 observers",
            k1_observers, targets=_k1_targets, parts=_k1_parts,
-           perturb=[("observer_writes_metadata", {"type": "pdf", "L": 2, "size": 0}),
-                    ("observer_counts_calls", {"type": "xlsx", "L": 2, "size": 0})],
+           perturb=[("observer_writes_metadata", {"type": "pdf", "L": 2, "size": 0, "alphabet": "merged"}),
+                    ("observer_counts_calls", {"type": "xlsx", "L": 2, "size": 0, "alphabet": "merged"})],
+           bounds={"quick": {"sequences": "all of length 3 on size-0 instances, all of length 2 on size-1 instances"},
+                   "thorough": {"sequences": "length 3 on size 1, length 2 on size 2; finer alphabet: length 3 on size 0, length 2 on size 1"}},
+           symbolic=["image width/height/number/unit attribution (ints, None by choice), ODT outline levels, ODT table-paragraph style "
+                     "name (6 symbolic characters), DOCX page-break flags and image/table anchor paragraph indices, RTF image/table "
+                     "page numbers, PPT/ODP slide numbers, PPTX formula display flags, EPUB chapter numbers, e-mail / plain / HTML "
+                     "body characters (space or '!', length <= 2)"],
+           choices=["observer at each of the <= 3 steps (8 observers: get_full_text, list(iterate_units), iterate_images, iterate_tables, "
+                    "get_metadata, to_json, unit accessors, image accessors; thorough: 12, incl. abandoned iterators; pptx "
+                    "include_image_captions=True; e-mail iterate_supported_attachments)",
+                    "element counts (units <= 2, images/tables per unit <= 1..2), text / caption / style vocabulary"],
+           stubs=["data_types._join_unit_text -> its own source with '<sep>'.join rewritten to a join that accepts symbolic strings "
+                  "(symbolic runs only; replay uses the original)"],
+           assumptions=["instances are built directly as dataclass objects (fields of the declared types), not through the parsers",
+                        "two observations are equal when their dataclass fields / JSON values / image bytes are equal; the read "
+                        "position of a BytesIO is not part of a value",
+                        "known finding (when active): differences confined to OpenDocumentImage.unit_name of an OdtContent are "
+                        "excluded, everything else about ODT is still compared"],
+           outside=["instances with more than 2 units or 2 images/tables per unit; sequences longer than 3; observers called "
+                    "concurrently; mutation of returned lists by the caller"],
            timeout={"quick": 100, "thorough": 1100}, max_depth=600),
+    Kernel("K2", "iteration order of sets does not reach results: AST-located set-to-sequence sites under a symbolic permutation",
+           k2_set_order, targets=_k2_targets, parts=_k2_parts,
+           perturb=[("rearrangement_counts_as_change", {"site": list(SITE_DRIVERS)[1], "n": 2, "name_len": 2}),
+                    ("constructor_sees_keyword_order", {"site": list(SITE_DRIVERS)[2]})],
+           bounds={"quick": {"set elements": "<= 3"}, "thorough": {"set elements": "<= 4"}},
+           symbolic=["every character of every style name (2 lower-case letters; equal names collapse by solver-decided equality)",
+                     "two permutations of the set's elements (position of each element, all-different)",
+                     "field values of the deserialised dataclass"],
+           choices=["number of names, absent / empty names, split of the names between content.xml and styles.xml, dataclass"],
+           stubs=["set(...) / set display / set comprehension at the site -> PermSet (iteration order = symbolic permutation); the site "
+                  "expression (docx) or enclosing function (odt, serialization) is compiled from the live source with that rewrite",
+                  "ODT context -> object exposing content_root / styles_root with iter(tag) and get(attr)"],
+           assumptions=["hash-seed dependence enters only through iteration over set/frozenset (dicts iterate in insertion order)",
+                        "replay: generated DOCX/ODT read by the public reader in fresh interpreters with PYTHONHASHSEED = 0..23 "
+                        "(stops at the first difference); full to_json() compared"],
+           outside=["sets built inside third-party libraries; sites the scan's set-type inference cannot see (sets passed through "
+                    "untyped parameters or containers); a site found by the scan without an evaluation model is reported inconclusive"],
+           timeout={"quick": 100, "thorough": 1100}, max_depth=600),
+    Kernel("K3", "stream handling: position restored where promised, third-party parsers started at offset 0, caller's stream "
+                 "never written or closed",
+           k3_streams, targets=_k3_targets,
+           parts=lambda tier: [{"fn": f, "biff_len": 6 if tier == "quick" else 10} for f in K3_FUNCTIONS],
+           perturb=[("expect_rewound", {"fn": "_bytesio_to_base64"}), ("parser_may_start_anywhere", {"fn": "is_ppt_encrypted"})],
+           symbolic=["initial stream position in [0, 2^32]", "position every third-party call leaves the stream at",
+                     "answers of OleFileIO.exists(name)", "bytes of the Workbook stream (BIFF record walk of is_xls_encrypted)"],
+           choices=["zipfile outcome: opens / BadZipFile / OSError; infolist: plain / bomb / raises; manifest absent / plain / "
+                    "encrypted; isOleFile / is_zipfile answers; include_binary; serialised once or twice"],
+           stubs=["caller's stream -> BytesIO subclass whose position is a symbolic int and which records write/writelines/truncate/"
+                  "getbuffer/close (replay: real BytesIO subclass that records the same calls)",
+                  "zipfile.ZipFile, zipfile.is_zipfile, olefile.isOleFile, olefile.OleFileIO -> stand-ins that move the stream "
+                  "to an arbitrary position; isOleFile records the position it was called at"],
+           assumptions=["position promises checked: validate_zip_bytesio (docstring 'Restores the original stream position', also "
+                        "when it raises) and _bytesio_to_base64 (to_json must not move image streams); for open_zipfile, ZipContext "
+                        "and is_*_encrypted no final position is demanded",
+                        "olefile.isOleFile reads the magic at the current position (olefile source), so it must be called at 0"],
+           outside=["what zipfile/olefile themselves do to the stream (replaced by stand-ins)"],
+           timeout={"quick": 100, "thorough": 1100}, max_depth=600),
+    Kernel("K4", "public readers on generated files: caller's buffer untouched, result independent of the stream position and of "
+                 "an earlier extraction from the same stream",
+           k4_readers, targets=_k4_targets, parts=lambda tier: [{"format": f} for f in sorted(_samples())],
+           strength="structure", core=False,
+           perturb=[("caller_stream_written_afterwards", {"format": "html"}), ("reference_from_other_bytes", {"format": "docx"})],
+           choices=["initial position of the caller's stream (0, 1, middle, end, past the end)", "second extraction from the same stream"],
+           assumptions=["one small generated file per format (txt, html, docx, odt, rtf, eml, mbox, zip, tar, xlsx with / without core "
+                        "properties; pdf via pypdf and pptx/epub/odp via the C14 writers when importable)"],
+           outside=["legacy OLE formats (doc, xls, ppt, msg) and 7z: no writer in the harness; results across fresh processes "
+                    "(K2 covers the hash seed)"]),
 ]
 
-META = {"level_text": "", "level_note": "", "technique": ""}
+META = {
+    "level_text": "Every content type of data_types is instantiated as a small object (<= 2 units, <= 2 images/tables per unit) whose "
+                  "numbers, flags and short strings are symbolic where the observers branch on them, and every sequence of up to 3 "
+                  "observers (8, thorough 12) is executed on it; on each path z3 decides that to_json() after each step equals "
+                  "to_json() before and that each observer returns what it returns on a fresh identical instance. The places where a "
+                  "set is turned into a sequence are located by an AST scan of the package and re-executed from the live source with the "
+                  "set's iteration order as a symbolic permutation (query: two permutations give different results), with replay through "
+                  "the public readers under different PYTHONHASHSEED values. The stream helpers (_bytesio_to_base64, "
+                  "validate_zip_bytesio, open_zipfile, ZipContext, is_*_encrypted) run on a stand-in stream with symbolic position: "
+                  "position restored where documented, OLE sniffing started at offset 0, never written or closed.",
+    "level_note": "Trusted: instance generators cover the declared field types only (results of the parsers are a subset); the scan's "
+                  "set-type inference (syntactic, per scope); stand-ins for zipfile/olefile. Outside: bit-identical results across fresh "
+                  "processes beyond the hash-seed mechanism, longer observer sequences, larger instances, legacy OLE formats in K4.",
+    "technique": "symbolic execution of the real observer methods on dataclass instances with z3-backed fields (symrun), relational "
+                 "idempotence/frame query per path; AST scan + source rewriting of set constructions into a symbolic-permutation set, "
+                 "SMT query for order dependence; symbolic-position stream stand-in; bounded-exhaustive structure exploration "
+                 "through the public readers",
+}
